@@ -307,6 +307,39 @@ def desugar_for_ranges(b, ordinals, g, where):
                                "new": (new_head + "{" + body_intro).strip(),
                                "why": "for over `&Vec` / `&mut Vec` whose body contains `continue` (unsupported in Verus for-loops) -> index/while desugaring of slice::Iter / IterMut"})
             continue
+        mrev = re.match(r"^\((.*)\)\s*\.rev\(\)$", rng, re.S)
+        if mrev and split is None:
+            inner = mrev.group(1).strip()
+            itoks = rustlex.lex(inner)
+            ipairs = rustlex.match_brackets(itoks)
+            i = 0
+            isplit = None
+            while i < len(itoks) - 1:
+                if itoks[i].text in rustlex.OPEN:
+                    i = ipairs[i]
+                elif itoks[i].text == "." and itoks[i + 1].text == "." and itoks[i + 1].start == itoks[i].end:
+                    isplit = (itoks[i].start, itoks[i + 1].end)
+                    break
+                i += 1
+            if isplit is None or inner[isplit[1]:isplit[1] + 1] == "=":
+                raise Undecided("%s: R15 loop #%d: not a reversed half-open integer range: %r" % (where, k, rng))
+            lo, hi = inner[:isplit[0]].strip(), inner[isplit[1]:].strip()
+            btoks = rustlex.lex(b)
+            bpairs = rustlex.match_brackets(btoks)
+            close = None
+            for o, c in bpairs.items():
+                if btoks[o].start == bpos:
+                    close = btoks[c].start
+            # R15 (reversed): `for x in (LO..HI).rev() { BODY }` => `{ let verif_lo_K = LO; let mut verif_next_K = HI;
+            # while verif_next_K > verif_lo_K { verif_next_K -= 1; let x = verif_next_K; BODY } }` (both bounds are
+            # evaluated once, before the first iteration, as in the original)
+            new_head = "{ let verif_lo_%d = %s; let mut verif_next_%d = %s;\n        while verif_next_%d > verif_lo_%d\n        " % (k, lo, k, hi, k, k)
+            body_intro = " verif_next_%d -= 1; let %s = verif_next_%d;" % (k, var, k)
+            b = b[:kwpos] + new_head + "{" + body_intro + b[bpos + 1:close + 1] + " }" + b[close + 1:]
+            g.rewrites.append({"item": where, "rule": "R15", "loop": k, "old": header.strip(),
+                               "new": (new_head + "{" + body_intro).strip(),
+                               "why": "for over a reversed integer range whose body contains `continue` -> the loop's own counter/while desugaring"})
+            continue
         if split is None or rng[split[1]:split[1] + 1] == "=":
             raise Undecided("%s: R15 loop #%d: not a half-open integer range: %r" % (where, k, rng))
         lo, hi = rng[:split[0]].strip(), rng[split[1]:].strip()
